@@ -254,6 +254,10 @@ mutant("c12-all-outputs-bridged", "C12", CAF, "            if index in nchw_outp
 benign("c12-benign-perm-as-list", "C12", CAF, "            perm=list(_NCHW_TO_NHWC_PERM),", "            perm=[int(p) for p in _NCHW_TO_NHWC_PERM],")
 
 # ----------------------------------------------------------------------------- C07
+mutant("c07-capture-items-sorted-before-key", "C07", PS, "        param_values = [entry[\"ir_value\"] for entry in dynamic_entries]\n", "        param_values = [entry[\"ir_value\"] for entry in dynamic_entries]\n        capture_items.sort(key=lambda item: item[0])\n", expect="R-C07e")
+mutant("c07-key-sorted-captures", "C07", PS, "            capture_sig = (id(callee), tuple(capture_items))", "            capture_sig = (id(callee), tuple(sorted(capture_items)))", expect="R-C07e")
+mutant("c07-unique-key-frozenset-captures", "C07", PS, '            ("captures", tuple(capture_items)),', '            ("captures", frozenset(capture_items)),', expect="R-C07e")
+benign("c07-benign-captures-tuple-via-list", "C07", PS, "            capture_sig = (id(callee), tuple(capture_items))", "            capture_sig = (id(callee), tuple(list(capture_items)))")
 mutant("c07-revert-static-fallback", "C07", PS, '                                "static",\n                                type(value_for_capture).__name__,\n                                repr(value_for_capture),\n', '                                "static",\n                                type(value_for_capture).__name__,\n', expect="capture-payload::static")
 mutant("c07-input-signature-without-dtype", "C07", PS, "            in_sigs.append((shape, str(dtype)))", "            in_sigs.append((shape,))", expect="input-signature")
 mutant("c07-input-signature-rank-only", "C07", PS, "            in_sigs.append((shape, str(dtype)))", "            in_sigs.append((len(getattr(aval, 'shape', ())), str(dtype)))", expect="input-signature")
